@@ -1,4 +1,541 @@
-//! C17 — placeholder (filled in after C18).
-pub fn gen_fts(_seed: u64, _n: usize, _len: usize, _out: &str) {
-    unimplemented!()
+//! C17 — full-text search returns exactly the rows whose current text matches.
+//!
+//! Op lines (shared with the Lean driver `dmodel_events`, interpreter `eng=fts`):
+//!   case id=<n> eng=fts sites=<1|2>
+//!   model s=<site> v=<0..3>          data-model version: bit 0 = `Doc` declared without index, bit 1 = `Note` declared WITH index
+//!                                    (version 0 — Doc indexed, Note not — is the one every site starts with)
+//!   new s= n=<row> e=<0|1> w=<words>  create row n (entity 0 = Doc, 1 = Note) with text `words` (word numbers k1+k2+…, may be
+//!                                    empty; word k is the string `w<k>x<letter>`)
+//!   upd s= n= w=<words>               replace the text
+//!   clr s= n=                         remove the text (null with one site, the empty string with two: a peer refuses explicit nulls)
+//!   del s= n=
+//!   pull s= from=<site>               s ingests the (single) room of `from`
+//!   q s= e= t=<word>                  search -> `hits n1,n2,…` (row numbers, sorted)
+//!   qall s=                           every word of past and current texts, for both entities -> `all <e>:<word>:<rows>;…` (non-empty results only)
+//!
+//! Oracle (written next to the observations, `<out>.oracle`): for every search the result must be the set of
+//! rows of that entity whose CURRENT text (read back with a plain query) contains the word — only checked
+//! for entities whose current model version declares an index.
+use crate::inst::*;
+use discret::verif_hooks::clock;
+use discret::verif_hooks::security::{derive_key, Ed25519SigningKey, SigningKey, Uid};
+use dvcommon::{Gen, Stats};
+use std::collections::{BTreeMap, BTreeSet, HashMap};
+use std::io::{BufWriter, Write};
+use std::path::PathBuf;
+
+pub const ENT_NAMES: [&str; 2] = ["Doc", "Note"];
+
+pub fn model_text(v: u64) -> String {
+    format!(
+        "{{ Doc{} {{ txt:String nullable, tag:String nullable }} Note{} {{ txt:String nullable }} }}",
+        if v & 1 == 1 { "(no_full_text_index)" } else { "" },
+        if v & 2 == 2 { "" } else { "(no_full_text_index)" }
+    )
+}
+
+type Kv = HashMap<String, String>;
+fn get_u(kv: &Kv, k: &str) -> Option<u64> {
+    kv.get(k).and_then(|v| v.parse::<u64>().ok())
+}
+
+/// how the current version of a row got where it is (only used to name the oracle's signatures)
+#[derive(Clone, Copy, PartialEq, Debug)]
+pub enum Origin {
+    Local,
+    LocalAfterDeletion,
+    IngestedInsert,
+    IngestedUpdate,
+}
+
+pub struct Site {
+    pub inst: Inst,
+    pub rows: BTreeMap<u64, (Uid, u64)>,
+    pub origin: BTreeMap<u64, Origin>,
+    pub version: u64,
+    pub deleted_since_start: bool,
+    /// rows that were overwritten by an ingested version at some point
+    pub had_ingested_update: BTreeSet<u64>,
+}
+
+#[allow(dead_code)]
+pub struct World {
+    pub base: PathBuf,
+    pub case_id: u64,
+    pub sites: Vec<Site>,
+    pub room: Uid,
+    pub row_uid: BTreeMap<u64, (Uid, u64)>,
+    pub row_of_uid: HashMap<String, u64>,
+    pub words: BTreeSet<u64>,
+    pub tick: i64,
+}
+
+fn site_key(case: u64, s: u64) -> Vec<u8> {
+    let signature_key = derive_key(&format!("{} SIGNING_KEY", APP), &secret_of(s + 1, case));
+    Ed25519SigningKey::create_from(&signature_key).export_verifying_key()
+}
+
+/// word number k -> a word of 4+ lower-case letters/digits; no word is a substring of another
+pub fn word(k: u64) -> String {
+    format!("w{}x{}", k, (b'a' + (k % 26) as u8) as char)
+}
+
+fn parse_words(words: &str) -> Option<Vec<u64>> {
+    words.split('+').filter(|x| !x.is_empty()).map(|x| x.parse::<u64>().ok()).collect()
+}
+
+fn text_of(words: &[u64]) -> String {
+    words.iter().map(|k| word(*k)).collect::<Vec<_>>().join(" ")
+}
+
+impl World {
+    pub async fn new(base: PathBuf, case_id: u64, nsites: u64) -> Result<World, String> {
+        clock::set(BASE_DAY + 3_600_000);
+        let mut sites = vec![];
+        for s in 0..nsites {
+            let folder = base.join(format!("f{}s{}", case_id, s));
+            let _ = std::fs::remove_dir_all(&folder);
+            let mut inst = Inst::start(folder, secret_of(s + 1, case_id), &model_text(0), 1)
+                .await
+                .map_err(|e| format!("start: {}", e))?;
+            inst.collect(1, 10_000).await?;
+            sites.push(Site {
+                inst,
+                rows: BTreeMap::new(),
+                origin: BTreeMap::new(),
+                version: 0,
+                deleted_since_start: false,
+                had_ingested_update: BTreeSet::new(),
+            });
+        }
+        // one room, every site key admin and member with all rights; imported by the other site
+        let mut p: Vec<(String, String)> = vec![];
+        let mut adm = String::new();
+        for i in 0..nsites {
+            p.push((format!("k{}", i), discret::verif_hooks::security::base64_encode(&site_key(case_id, i))));
+            adm.push_str(&format!("{}{{verif_key:$k{}}} ", if i > 0 { "," } else { "" }, i));
+        }
+        let q = format!(
+            "mutate {{ sys.Room {{ admin:[{}] authorisations:[{{ name:\"g\" rights:[{{entity:\"*\" mutate_self:true mutate_all:true}}] users:[{}] }}] }} }}",
+            adm, adm
+        );
+        let pr: Vec<(&str, String)> = p.iter().map(|(k, v)| (k.as_str(), v.clone())).collect();
+        let mq = sites[0].inst.svc.mutate_raw(&q, Some(params(&pr))).await.map_err(|e| e.to_string())?;
+        let room = mq.mutate_entities[0].node_to_mutate.id;
+        let mut w = World {
+            base,
+            case_id,
+            sites,
+            room,
+            row_uid: BTreeMap::new(),
+            row_of_uid: HashMap::new(),
+            words: BTreeSet::new(),
+            tick: 0,
+        };
+        w.step_clock();
+        if nsites == 2 {
+            let (src, dst) = (w.sites[0].inst.svc.clone(), w.sites[1].inst.svc.clone());
+            let (st, _, _) = pull_room(&src, &dst, room).await;
+            if st != "ok" {
+                return Err(format!("room import: {}", st));
+            }
+        }
+        Ok(w)
+    }
+
+    pub fn cleanup(&mut self) {
+        let folders: Vec<PathBuf> = self.sites.iter().map(|s| s.inst.folder.clone()).collect();
+        self.sites.clear();
+        for f in folders {
+            let _ = std::fs::remove_dir_all(f);
+        }
+    }
+
+    fn step_clock(&mut self) {
+        self.tick += 1;
+        clock::set(BASE_DAY + 3_600_000 + self.tick * 1000);
+    }
+
+    fn note_words(&mut self, words: &[u64]) {
+        for x in words {
+            self.words.insert(*x);
+        }
+    }
+
+    fn indexed_now(&self, s: usize, e: u64) -> bool {
+        let v = self.sites[s].version;
+        if e == 0 {
+            v & 1 == 0
+        } else {
+            v & 2 == 2
+        }
+    }
+
+    /// the search itself (the real query path) and the independent expectation
+    async fn search(&self, s: usize, e: u64, t: u64) -> Result<(Vec<u64>, Vec<u64>), String> {
+        let t = &word(t);
+        let name = ENT_NAMES[e as usize];
+        let q = format!("query {{ {}(search($t)) {{ id txt tag }} }}", name).replace(" tag", if e == 0 { " tag" } else { "" });
+        let res = self.sites[s].inst.svc.query(&q, Some(params(&[("t", t.to_string())]))).await.map_err(|e| class(&e))?;
+        let v: serde_json::Value = serde_json::from_str(&res).map_err(|e| e.to_string())?;
+        let mut hits = vec![];
+        for row in v[name].as_array().cloned().unwrap_or_default() {
+            let id = row["id"].as_str().unwrap_or("").to_string();
+            hits.push(self.row_of_uid.get(&id).copied().unwrap_or(u64::MAX));
+        }
+        hits.sort();
+        // expectation: every row of the entity (plain query, no search) whose current text fields contain t
+        let q2 = format!("query {{ {} {{ id txt tag }} }}", name).replace(" tag", if e == 0 { " tag" } else { "" });
+        let res = self.sites[s].inst.svc.query(&q2, None).await.map_err(|e| class(&e))?;
+        let v: serde_json::Value = serde_json::from_str(&res).map_err(|e| e.to_string())?;
+        let mut expect = vec![];
+        for row in v[name].as_array().cloned().unwrap_or_default() {
+            let id = row["id"].as_str().unwrap_or("").to_string();
+            let has = ["txt", "tag"].iter().any(|f| row[*f].as_str().map(|x| x.contains(t)).unwrap_or(false));
+            if has {
+                expect.push(self.row_of_uid.get(&id).copied().unwrap_or(u64::MAX));
+            }
+        }
+        expect.sort();
+        Ok((hits, expect))
+    }
+
+    fn classify(&self, s: usize, e: u64, t: u64, hits: &[u64], expect: &[u64]) -> Vec<(String, String)> {
+        let mut res = vec![];
+        let site = &self.sites[s];
+        let t = &word(t);
+        for n in hits.iter().filter(|n| !expect.contains(n)) {
+            let sig = if site.had_ingested_update.contains(n) {
+                "stale-hit-after-synchronised-update"
+            } else {
+                match site.origin.get(n) {
+                    Some(Origin::LocalAfterDeletion) => "stale-hit-through-reused-slot",
+                    Some(Origin::IngestedInsert) => "stale-hit-through-reused-slot",
+                    _ => "stale-hit",
+                }
+            };
+            res.push((sig.to_string(), format!("site {} entity {} search '{}' returned row {} whose current text does not contain it", s, e, t, n)));
+        }
+        for n in expect.iter().filter(|n| !hits.contains(n)) {
+            let sig = if e == 1 {
+                // `Note` is declared without index by the first model version; a later version declares one
+                "index-enabled-by-model-update-ignored"
+            } else {
+                match site.origin.get(n) {
+                    Some(Origin::IngestedInsert) => "synchronised-row-missed",
+                    Some(Origin::IngestedUpdate) => "synchronised-update-missed",
+                    Some(Origin::LocalAfterDeletion) => "missed-row-in-reused-slot",
+                    _ => "missed-row",
+                }
+            };
+            res.push((sig.to_string(), format!("site {} entity {} search '{}' misses row {} whose current text contains it", s, e, t, n)));
+        }
+        res
+    }
+
+    pub async fn op(&mut self, kind: &str, kv: &Kv, stats: &mut Stats, oracle: &mut Vec<(String, String)>) -> String {
+        let s = match get_u(kv, "s") {
+            Some(s) if (s as usize) < self.sites.len() => s as usize,
+            Some(_) => return "skip".into(),
+            None => return "bad-op".into(),
+        };
+        match kind {
+            "model" => {
+                let v = match get_u(kv, "v") {
+                    Some(v) if v < 4 => v,
+                    _ => return "bad-op".into(),
+                };
+                stats.inc("op.model");
+                match self.sites[s].inst.svc.update_data_model(&model_text(v)).await {
+                    Ok(_) => {
+                        self.sites[s].version = v;
+                        "ok".into()
+                    }
+                    Err(e) => format!("err:{}", class(&e)),
+                }
+            }
+            "new" => {
+                let (n, e) = match (get_u(kv, "n"), get_u(kv, "e")) {
+                    (Some(n), Some(e)) if e < 2 => (n, e),
+                    _ => return "bad-op".into(),
+                };
+                if parse_words(kv.get("w").map(|x| x.as_str()).unwrap_or("")).is_none() {
+                    return "bad-op".into();
+                }
+                if self.row_uid.contains_key(&n) {
+                    return "skip".into();
+                }
+                let words = match parse_words(kv.get("w").map(|x| x.as_str()).unwrap_or("")) {
+                    Some(w) => w,
+                    None => return "bad-op".into(),
+                };
+                self.note_words(&words);
+                let q = format!("mutate {{ {} {{ room_id:$r txt:$t }} }}", ENT_NAMES[e as usize]);
+                let p = params(&[("r", b64(&self.room)), ("t", text_of(&words))]);
+                stats.inc("op.new");
+                let r = match self.sites[s].inst.svc.mutate_raw(&q, Some(p)).await {
+                    Ok(mq) => {
+                        let id = mq.mutate_entities[0].node_to_mutate.id;
+                        self.row_uid.insert(n, (id, e));
+                        self.row_of_uid.insert(b64(&id), n);
+                        self.sites[s].rows.insert(n, (id, e));
+                        let o = if self.sites[s].deleted_since_start { Origin::LocalAfterDeletion } else { Origin::Local };
+                        self.sites[s].origin.insert(n, o);
+                        "ok".to_string()
+                    }
+                    Err(e) => format!("err:{}", class(&e)),
+                };
+                self.step_clock();
+                r
+            }
+            "upd" | "clr" => {
+                let n = match get_u(kv, "n") {
+                    Some(n) => n,
+                    None => return "bad-op".into(),
+                };
+                if kind == "upd" && parse_words(kv.get("w").map(|x| x.as_str()).unwrap_or("")).is_none() {
+                    return "bad-op".into();
+                }
+                let (id, e) = match self.sites[s].rows.get(&n) {
+                    Some(x) => *x,
+                    None => return "skip".into(),
+                };
+                let (q, p) = if kind == "upd" {
+                    let words = parse_words(kv.get("w").map(|x| x.as_str()).unwrap_or("")).unwrap_or_default();
+                    self.note_words(&words);
+                    (
+                        format!("mutate {{ {} {{ id:$id txt:$t }} }}", ENT_NAMES[e as usize]),
+                        params(&[("id", b64(&id)), ("t", text_of(&words))]),
+                    )
+                } else {
+                    // an explicit null is refused by the ingestion of a peer (another property's finding): with two
+                    // sites the text is emptied instead of removed
+                    let v = if self.sites.len() == 1 { "null" } else { "\"\"" };
+                    (format!("mutate {{ {} {{ id:$id txt:{} }} }}", ENT_NAMES[e as usize], v), params(&[("id", b64(&id))]))
+                };
+                stats.inc(&format!("op.{}", kind));
+                let r = match self.sites[s].inst.svc.mutate_raw(&q, Some(p)).await {
+                    Ok(_) => {
+                        let o = match self.sites[s].origin.get(&n) {
+                            Some(Origin::LocalAfterDeletion) => Origin::LocalAfterDeletion,
+                            _ => Origin::Local,
+                        };
+                        self.sites[s].origin.insert(n, o);
+                        "ok".to_string()
+                    }
+                    Err(e) => format!("err:{}", class(&e)),
+                };
+                self.step_clock();
+                r
+            }
+            "del" => {
+                let n = match get_u(kv, "n") {
+                    Some(n) => n,
+                    None => return "bad-op".into(),
+                };
+                let (id, e) = match self.sites[s].rows.get(&n) {
+                    Some(x) => *x,
+                    None => return "skip".into(),
+                };
+                stats.inc("op.del");
+                let q = format!("delete {{ {} {{ $id }} }}", ENT_NAMES[e as usize]);
+                let r = match self.sites[s].inst.svc.delete(&q, Some(params(&[("id", b64(&id))]))).await {
+                    Ok(_) => {
+                        self.sites[s].rows.remove(&n);
+                        self.sites[s].origin.remove(&n);
+                        self.sites[s].had_ingested_update.remove(&n);
+                        self.sites[s].deleted_since_start = true;
+                        "ok".to_string()
+                    }
+                    Err(e) => format!("err:{}", class(&e)),
+                };
+                self.step_clock();
+                r
+            }
+            "pull" => {
+                let t = match get_u(kv, "from") {
+                    Some(t) => t as usize,
+                    None => return "bad-op".into(),
+                };
+                if t >= self.sites.len() || t == s {
+                    return "skip".into();
+                }
+                stats.inc("op.pull");
+                // versions before, to tell inserts from updates afterwards
+                let before = self.versions(s).await;
+                let (src, dst) = (self.sites[t].inst.svc.clone(), self.sites[s].inst.svc.clone());
+                let (st, _, _) = pull_room(&src, &dst, self.room).await;
+                let after = self.versions(s).await;
+                let known: Vec<(u64, (Uid, u64))> = self.row_uid.iter().map(|(n, v)| (*n, *v)).collect();
+                let mut rows = BTreeMap::new();
+                for (n, (id, e)) in known {
+                    if let Some(m) = after.get(&b64(&id)) {
+                        rows.insert(n, (id, e));
+                        match before.get(&b64(&id)) {
+                            None => {
+                                self.sites[s].origin.insert(n, Origin::IngestedInsert);
+                            }
+                            Some(m0) if m0 != m => {
+                                self.sites[s].origin.insert(n, Origin::IngestedUpdate);
+                                self.sites[s].had_ingested_update.insert(n);
+                            }
+                            _ => {}
+                        }
+                    } else {
+                        if before.contains_key(&b64(&id)) {
+                            self.sites[s].deleted_since_start = true;
+                        }
+                        self.sites[s].origin.remove(&n);
+                        self.sites[s].had_ingested_update.remove(&n);
+                    }
+                }
+                self.sites[s].rows = rows;
+                self.step_clock();
+                st
+            }
+            "q" => {
+                let (e, t) = match (get_u(kv, "e"), get_u(kv, "t")) {
+                    (Some(e), Some(t)) if e < 2 => (e, t),
+                    _ => return "bad-op".into(),
+                };
+                stats.inc("op.q");
+                match self.search(s, e, t).await {
+                    Ok((hits, expect)) => {
+                        if self.indexed_now(s, e) {
+                            oracle.extend(self.classify(s, e, t, &hits, &expect));
+                        }
+                        if !hits.is_empty() {
+                            stats.inc("searches_with_hits");
+                        }
+                        format!("hits {}", hits.iter().map(|x| x.to_string()).collect::<Vec<_>>().join(","))
+                            .trim_end()
+                            .to_string()
+                    }
+                    Err(e) => format!("err:{}", e),
+                }
+            }
+            "qall" => {
+                stats.inc("op.qall");
+                let words: Vec<u64> = self.words.iter().copied().collect();
+                let mut parts = vec![];
+                for e in 0..2u64 {
+                    for t in &words {
+                        let t = *t;
+                        match self.search(s, e, t).await {
+                            Ok((hits, expect)) => {
+                                stats.inc("searches");
+                                if self.indexed_now(s, e) {
+                                    oracle.extend(self.classify(s, e, t, &hits, &expect));
+                                }
+                                if !hits.is_empty() {
+                                    stats.inc("searches_with_hits");
+                                    parts.push(format!(
+                                        "{}:{}:{}",
+                                        e,
+                                        t,
+                                        hits.iter().map(|x| x.to_string()).collect::<Vec<_>>().join(",")
+                                    ));
+                                }
+                            }
+                            Err(er) => parts.push(format!("{}:{}:err:{}", e, t, er)),
+                        }
+                    }
+                }
+                format!("all {}", parts.join(";")).trim_end().to_string()
+            }
+            _ => "bad-op".into(),
+        }
+    }
+
+    /// id -> mdate of every row of the room at a site
+    async fn versions(&self, s: usize) -> HashMap<String, i64> {
+        self.sites[s]
+            .inst
+            .read(|conn| {
+                let mut res = HashMap::new();
+                let mut stmt = conn.prepare("SELECT id, mdate FROM _node WHERE room_id IS NOT NULL").unwrap();
+                let mut rows = stmt.query([]).unwrap();
+                while let Some(r) = rows.next().unwrap() {
+                    let id: Vec<u8> = r.get(0).unwrap();
+                    let m: i64 = r.get(1).unwrap();
+                    if id.len() == 16 {
+                        let mut u = [0u8; 16];
+                        u.copy_from_slice(&id);
+                        res.insert(b64(&u), m);
+                    }
+                }
+                res
+            })
+            .await
+    }
+}
+
+pub fn gen_fts(seed: u64, n: usize, len: usize, out: &str) {
+    let mut g = Gen::new(seed);
+    let mut w = BufWriter::new(std::fs::File::create(out).unwrap());
+    let vocab: Vec<u64> = (0..8).collect();
+    for id in 0..n {
+        let sites = if g.chance(1, 2) { 2 } else { 1 };
+        writeln!(w, "case id={} eng=fts sites={}", id, sites).unwrap();
+        let mut rows: Vec<Vec<u64>> = vec![vec![]; sites];
+        let mut next_row = 1u64;
+        let l = 5 + g.below(len);
+        let words = |g: &mut Gen| -> String {
+            let k = g.below(4);
+            let mut v = vec![];
+            for _ in 0..k {
+                v.push(g.pick(&vocab).to_string());
+            }
+            v.join("+")
+        };
+        for _ in 0..l {
+            let s = g.below(sites);
+            match g.weighted(&[6, 5, 1, 4, if sites == 2 { 4 } else { 0 }, 3, 1, 1]) {
+                0 => {
+                    let e = if g.chance(3, 4) { 0 } else { 1 };
+                    writeln!(w, "new s={} n={} e={} w={}", s, next_row, e, words(&mut g)).unwrap();
+                    rows[s].push(next_row);
+                    next_row += 1;
+                }
+                1 => {
+                    if !rows[s].is_empty() {
+                        let n = *g.pick(&rows[s]);
+                        writeln!(w, "upd s={} n={} w={}", s, n, words(&mut g)).unwrap();
+                    }
+                }
+                2 => {
+                    if !rows[s].is_empty() {
+                        let n = *g.pick(&rows[s]);
+                        writeln!(w, "clr s={} n={}", s, n).unwrap();
+                    }
+                }
+                3 => {
+                    if !rows[s].is_empty() {
+                        // bias: delete the most recent row (highest slot), then create
+                        let n = if g.chance(2, 3) { *rows[s].last().unwrap() } else { *g.pick(&rows[s]) };
+                        writeln!(w, "del s={} n={}", s, n).unwrap();
+                        rows[s].retain(|x| *x != n);
+                        if g.chance(2, 3) {
+                            writeln!(w, "new s={} n={} e=0 w={}", s, next_row, words(&mut g)).unwrap();
+                            rows[s].push(next_row);
+                            next_row += 1;
+                        }
+                    }
+                }
+                4 => {
+                    let t = 1 - s;
+                    writeln!(w, "pull s={} from={}", s, t).unwrap();
+                    let add: Vec<u64> = rows[t].iter().filter(|x| !rows[s].contains(x)).copied().collect();
+                    rows[s].extend(add);
+                }
+                5 => writeln!(w, "q s={} e={} t={}", s, g.below(2), g.pick(&vocab)).unwrap(),
+                6 => writeln!(w, "model s={} v={}", s, g.below(4)).unwrap(),
+                _ => writeln!(w, "qall s={}", s).unwrap(),
+            }
+        }
+        for s in 0..sites {
+            writeln!(w, "qall s={}", s).unwrap();
+        }
+    }
+    w.flush().unwrap();
 }
